@@ -58,11 +58,11 @@ def liveOK (pool : Pool) : Policy → Bool
   | .keyed false fb => liveOK pool fb
   | .cookie _ fb => liveOK pool fb
 
-/-- the request never reaches a cookie policy through a header / query policy whose key is
-    absent (those call their fallback with a nil ResponseWriter) -/
+/-- `Select` was handed a ResponseWriter, or the request reaches no cookie policy (a cookie
+    policy writes its cookie to the ResponseWriter; the proxy handler always supplies one) -/
 def nilSafe : Bool → Policy → Bool
   | _, .keyed true _ => true
-  | _, .keyed false fb => nilSafe false fb
+  | w, .keyed false fb => nilSafe w fb
   | w, .cookie _ fb => w && nilSafe w fb
   | _, _ => true
 
